@@ -79,5 +79,6 @@ func formattingTemplateFuncs() template.FuncMap {
 		"formatFunctionName": formatFunctionName,
 		"formatPath":         formatFieldPath,
 		"formatObjectName":   formatObjectName,
+		"escapeDocstring":    escapeDocstring,
 	}
 }
